@@ -194,4 +194,14 @@ theorem Comp.nrcConst_ok (o : Obj) (values : List IVal) (r : IVal) (ho : o.ok) (
     rw [hst]
     rfl
 
+/-! ### bridge: the tier-2 parameters (`Tree`, `Proofs/ComposeMsg.lean`) are components -/
+
+/-- a tier-2 parameter (VALUE / CODED-CONST leaf or nested structure of such, all values supplied) as a component, through
+    the generic bridge `Comp.ofGItem` -/
+def Tree.toComp (t : Tree) : Comp := Comp.ofGItem (FItem.item (.tree t)).toG t.cursor
+
+theorem Tree.toComp_ok (t : Tree) (hok : t.okAll) (hn : t.namesOk) : t.toComp.Ok ∧ t.toComp.EndOk :=
+  ⟨Comp.ofGItem_ok _ (FItem.toG_ok (.item (.tree t)) ⟨hok, hn⟩) _ (fun s => (Tree.enc_cursor t s).1) (Tree.cursor_shift t)
+    (Tree.dec_origin t), Comp.ofGItem_endOk _ (FItem.toG_ok (.item (.tree t)) ⟨hok, hn⟩) _⟩
+
 end OdxVerif.Codec
